@@ -44,5 +44,9 @@ int main(int argc, char** argv) {
 	cfg.menu0.call_full = true; cfg.menu0.call_maxargs = 3;
 	cfg.menu.call_full = false; cfg.menu.call_maxargs = 2;
 	cfg.full_call_depth = 1;
-	return vr::main_roots(args, cfg, thorough, [](std::vector<idx> const& sizes, bool owning, Hist const& h) { return vo::replay_one(sizes, owning, h); });
+	return vr::main_roots(args, cfg, thorough, [](std::vector<idx> const& sizes, bool owning, Hist const& h) { return vr::replay_generic(sizes, owning, h, [](auto&& v, MView const& m, int const* data, idx N) {
+		vo::Fail f = vo::check_view(v, m, data, N);
+		if(f.bad) { std::printf("REPLAY VIOLATION oracle=%s detail=%s model=%s\n", f.oracle.c_str(), f.detail.c_str(), key_of(m).c_str()); return 1; }
+		std::printf("REPLAY OK model=%s\n", key_of(m).c_str()); return 0;
+	}); });
 }
